@@ -13,7 +13,10 @@ From JS Require ScannerProg.
 From JS Require IncludeName Inventory InventoryExpected.
 
 (* every explicit panic, unchecked type assertion, recover, goroutine, sync.Once, map range,
-   package-level variable and os/filepath call of the non-test packages is a reviewed one *)
+   package-level variable and os/filepath call of the non-test packages is a reviewed one: the
+   regenerated sites, keyed by what they are (kind, package, asserted type / callee / variable; a map
+   iteration by its function), are a sub-multiset of the reviewed list - sites may move inside their
+   package, merge or disappear, none may appear *)
 Theorem C01_inventory_is_the_reviewed_one : inventory_check = true.
 Proof. exact inventory_check_ok. Qed.
 
